@@ -528,12 +528,52 @@ pub fn apply(kind: &str, cur: &str, rng: &mut Rng) -> Option<String> {
             Some(join(&lines))
         }
         "toggle_pub" => {
-            let spots: Vec<usize> = lines.iter().enumerate().filter(|(_, l)| l.starts_with("pub fn ") || l.starts_with("fn ") || l.starts_with("pub struct ") || l.starts_with("struct ")).map(|(i, _)| i).collect();
+            // Item level (`pub fn`, `pub struct` at the start of a line) or member level (`pub x: T`
+            // anywhere in a struct written on one or several lines).
+            if rng.chance(1, 2) {
+                let spots: Vec<usize> = lines.iter().enumerate().filter(|(_, l)| l.starts_with("pub fn ") || l.starts_with("fn ") || l.starts_with("pub struct ") || l.starts_with("struct ")).map(|(i, _)| i).collect();
+                if spots.is_empty() {
+                    return None;
+                }
+                let i = spots[rng.below(spots.len())];
+                lines[i] = if let Some(rest) = lines[i].strip_prefix("pub ") { rest.to_string() } else { format!("pub {}", lines[i]) };
+                return Some(join(&lines));
+            }
+            // Member level: positions right after `{ ` or `, ` on lines of a struct body.
+            let mut in_struct = false;
+            let mut spots: Vec<(usize, usize, bool)> = vec![]; // (line, byte offset, currently pub)
+            for (i, l) in lines.iter().enumerate() {
+                let t = l.trim_start();
+                if t.starts_with("struct ") || t.starts_with("pub struct ") {
+                    in_struct = true;
+                }
+                if in_struct {
+                    let b = l.as_bytes();
+                    for k in 0..b.len() {
+                        let after_sep = k >= 2 && (&l[k - 2..k] == "{ " || &l[k - 2..k] == ", ") || (k == l.len() - l.trim_start().len() && !t.starts_with("struct") && !t.starts_with("pub struct") && !t.starts_with('}') && !t.starts_with('#'));
+                        if after_sep && k < b.len() && (b[k].is_ascii_alphabetic() || b[k] == b'_') {
+                            let is_pub = l[k..].starts_with("pub ");
+                            if l[k..].contains(':') {
+                                spots.push((i, k, is_pub));
+                            }
+                        }
+                    }
+                    if l.contains('}') {
+                        in_struct = false;
+                    }
+                }
+            }
             if spots.is_empty() {
                 return None;
             }
-            let i = spots[rng.below(spots.len())];
-            lines[i] = if let Some(rest) = lines[i].strip_prefix("pub ") { rest.to_string() } else { format!("pub {}", lines[i]) };
+            let (i, k, is_pub) = spots[rng.below(spots.len())];
+            let mut s = lines[i].clone();
+            if is_pub {
+                s.replace_range(k..k + 4, "");
+            } else {
+                s.insert_str(k, "pub ");
+            }
+            lines[i] = s;
             Some(join(&lines))
         }
         _ => None,
